@@ -161,7 +161,7 @@ class H:
     """one harness: which real functions go under the solver, which are environment stubs, and how cbmc is run"""
     def __init__(s, name, file, entries, stubs=(), noglobal=(), icall_only=(), blocking=(), visible=(), seq=False, nt=2, heap=1024, pagewords=32,
                  defines=(), cbmc=(), mode='all', witness='inline', tiers=('quick', 'thorough'), timeout=600, symbolic=True, note='', nsw=False,
-                 unwind=None, unwindset=None, mem_gb=24, extra_tus=(), backend=None, flat=True, expect_fail=(), stack_extra=0, weak_cas=False, prune_init=True, probes=None, witness_any=False, paths=False):
+                 unwind=None, unwindset=None, mem_gb=24, extra_tus=(), backend=None, flat=True, expect_fail=(), stack_extra=0, weak_cas=False, prune_init=True, probes=None, witness_any=False, paths=False, harness_fns=None):
         s.__dict__.update(locals()); del s.__dict__['s']
 
 def translate(h, wd):
@@ -170,7 +170,7 @@ def translate(h, wd):
     m = load_module(ll)
     e = Flat(m, list(h.stubs), list(h.visible), noglobal=list(h.noglobal), seq=h.seq)
     e.blocking = set(h.blocking); e.icall_only = set(h.icall_only); e.nt = h.nt; e.heap = h.heap; e.pagewords = h.pagewords
-    e.nsw = h.nsw; e.prune_init = h.prune_init
+    e.nsw = h.nsw; e.prune_init = h.prune_init; e.extra_fns = dict(h.harness_fns or {})
     out = e.translate(list(h.entries))
     open(os.path.join(wd, 'model.c'), 'w').write(out)
     funcs = sorted(n for n in e.fseen if m.funcs[n].defined and n not in e.stubs and not n.startswith('llvm.'))
